@@ -5,6 +5,9 @@ pub mod c03;
 pub mod c05;
 pub mod c18;
 pub mod c19;
+pub mod c11;
+pub mod c12;
+pub mod c20;
 pub mod c06;
 pub mod c08;
 pub mod c09;
@@ -21,6 +24,9 @@ pub fn run(p: &Params, rep: &mut Report) -> bool {
         "C05" => c05::run(p, rep),
         "C18" => c18::run(p, rep),
         "C19" => c19::run(p, rep),
+        "C11" => c11::run(p, rep),
+        "C12" => c12::run(p, rep),
+        "C20" => c20::run(p, rep),
         "C06" => c06::run(p, rep),
         "C08" => c08::run(p, rep),
         "C09" => c09::run(p, rep),
@@ -39,6 +45,9 @@ pub fn replay(prop: &str, kind: &str, text: &str, seed: u64, rep: &mut Report) -
         "C05" => c05::replay(kind, text, seed, rep),
         "C18" => c18::replay(kind, text, seed, rep),
         "C19" => c19::replay(kind, text, seed, rep),
+        "C11" => c11::replay(kind, text, seed, rep),
+        "C12" => c12::replay(kind, text, seed, rep),
+        "C20" => c20::replay(kind, text, seed, rep),
         "C06" => c06::replay(kind, text, seed, rep),
         "C08" => c08::replay(kind, text, seed, rep),
         "C09" => c09::replay(kind, text, seed, rep),
